@@ -334,6 +334,10 @@ def cases(ctx: Ctx):
     yield dict(k="explore", programs=[[["get", "X", "8bit", 5, 7]], [["get", "Y", "8bit", 5, 7]]], limit=300)
     yield dict(k="explore", programs=[[["get", "X", "8bit", 5, 7]], [["get", "X", "8bit", 5, 7]]], limit=300)
     yield dict(k="explore", programs=[[["get", "X", "8bit", 5, 8]], [["get", "Y", "8bit", 5, 8]], [["get", "X", "8bit", 5, 8]]], prefill=[[5, "P"]], limit=400)
+    # completely full enumerable subspace: a hit on the oldest row races with a recycling request
+    yield dict(k="explore", programs=[[["get", "X", "8bit", 5, 7]], [["get", "Y", "8bit", 5, 7]]], prefill=[[5, "X"], [6, "Z"]], limit=300)
+    yield dict(k="explore", programs=[[["get", "X", "8bit", 5, 7]], [["get", "Y", "8bit", 5, 7]], [["get", "Z", "8bit", 5, 7]]], prefill=[[5, "X"], [6, "Z"]], limit=400)
+    yield dict(k="explore", programs=[[["get", "X", "16bit", 1, 2], ["info", 16777217]], [["del", 16777217], ["get", "Y", "16bit", 1, 2]]], prefill=[[16777217, "X"]], limit=300)
     yield dict(k="explore", programs=[[["get", "X", "16bit", 1, 2], ["mark", 16777217, "T", 10]], [["get", "Y", "16bit", 1, 2], ["needs", 16777217, "T"]]], limit=300)
     yield dict(k="explore", programs=[[["get", "X", "32bit", 7, 9], ["get", "Y", "32bit", 7, 9]], [["get", "Y", "32bit", 7, 9], ["get", "X", "32bit", 7, 9]]], limit=600)
     yield dict(k="explore", programs=[[["get", "X", "8bit", 5, 7], ["del", 5]], [["get", "Y", "8bit", 5, 7], ["cleanup", "8bit", 5, 7, 1]]], limit=300)
